@@ -2,6 +2,10 @@
 EXTENDS SplatConc
 MCG == {1, 2, 3}
 Distinct == [g \in MCG |-> g]
+\* one goroutine over a non-empty list, two over an empty list (type probe in child contexts)
+MixedKinds == [g \in MCG |-> IF g = 1 THEN "full" ELSE "empty"]
+AllFull == [g \in MCG |-> "full"]
+OneEmpty == [g \in MCG |-> IF g = 3 THEN "empty" ELSE "full"]
 \* two goroutines sharing one context: documented as unsupported; must violate ReadOwn
 Shared == [g \in MCG |-> IF g = 3 THEN 3 ELSE 1]
 \* the schedule is observation only: do not let it multiply states
